@@ -1,3 +1,4 @@
+import ChfVerif.Gen.Schema
 import Driver.CdrFileIO
 import ChfVerif.Model.Ber
 import ChfVerif.Spec.X690
@@ -162,9 +163,15 @@ def sRes (r : Res String) : String :=
   | .err => "err"
   | .panic => "panic"
 
+/-- a type in the notation, or `T:<name>`: the regenerated description of the schema type cdrType.<name> -/
+def pTyOrName (ty : String) : Option (Ty × Cs) :=
+  if ty.startsWith "T:" then
+    (Chf.Gen.schema.find? (fun e => e.1 == (ty.drop 2).toString)).map (fun e => (e.2, []))
+  else pTy (ty.length + 1) ty.toList
+
 /-- one `M` / `R` / `U` operation -/
 def berOne (kind ty params arg : String) : String :=
-  match pTy (ty.length + 1) ty.toList, pParams params.toList with
+  match pTyOrName ty, pParams params.toList with
   | some (t, []), some (p, []) =>
     if kind = "M" ∨ kind = "R" then
       (match pVal (arg.length + 1) arg.toList with
@@ -212,7 +219,7 @@ def berOp : Tok → String
      | none => "bad-hex")
   | "spec" :: ty :: params :: rest =>
     let arg := match rest with | a :: _ => a | [] => ""
-    (match pTy (ty.length + 1) ty.toList, pParams params.toList, pVal (arg.length + 1) arg.toList with
+    (match pTyOrName ty, pParams params.toList, pVal (arg.length + 1) arg.toList with
      | some (t, []), some (p, []), some (v, []) =>
        (match X690.encode t p v with
         | some b => "ok " ++ hexRaw b
@@ -220,11 +227,11 @@ def berOp : Tok → String
      | _, _, _ => "bad-op")
   | ["dom", ty, params] =>
     -- is (type, top-level parameters) in the domain of the round-trip law (Props.C05.C05_domain)?
-    (match pTy (ty.length + 1) ty.toList, pParams params.toList with
+    (match pTyOrName ty, pParams params.toList with
      | some (t, []), some (p, []) => if inDomain t p then "in" else "out"
      | _, _ => "bad-type")
   | ["z0", ty, params, arg] =>
-    (match pTy (ty.length + 1) ty.toList, pParams params.toList, hexCs (if arg = "-" then [] else arg.toList) with
+    (match pTyOrName ty, pParams params.toList, hexCs (if arg = "-" then [] else arg.toList) with
      | some (t, []), some (p, []), some b => if zeroLenPrim t p b then "1" else "0"
      | _, _, _ => "bad-type")
   | "H" :: _mode :: items => berEach "R" items
